@@ -109,6 +109,10 @@ inductive Step
   | mergeIn (i : Nat)
   /-- lossy subscriber: the merger emits the front of its queue (`&change`: a new cell), the Pull goroutine filters -/
   | emit (i : Nat)
+  /-- lossy subscriber with an include filter, when the filter does not simply pass the merger's event: `include` runs in the
+  Pull goroutine, i.e. BEHIND the merger — the emitted cell is dropped, or replaced by a new ADD / REMOVE which then goes
+  through the read-mask filter -/
+  | emitIncl (i : Nat) (d : Decision)
   deriving Repr
 
 /-- write `cells` at `n, n+1, …` -/
@@ -208,6 +212,26 @@ def step (proj : Nat → Nat) (s : ES) : Step → ES
           { s with heap := pushCells s.heap s.next [c],
                    owner := setOwner s.owner s.next 1 (some sb.idx), next := s.next + 1,
                    subs := replaceSub s.subs sb fun x => { x with pending := rest, out := x.out ++ [s.next] } }
+  | .emitIncl i d =>
+    match s.subs.find? (fun sb => sb.idx = i) with
+    | none => s
+    | some sb =>
+      if !(sb.lossy && !sb.value) then s else
+      match sb.pending with
+      | [] => s
+      | c :: rest =>
+        if d = .skip then
+          { s with heap := pushCells s.heap s.next [c],
+                   owner := setOwner s.owner s.next 1 (some sb.idx), next := s.next + 1,
+                   subs := replaceSub s.subs sb fun x => { x with pending := rest } }
+        else if sb.mask then
+          { s with heap := pushCells s.heap s.next [c, convEv d c, projEv proj (convEv d c)],
+                   owner := setOwner s.owner s.next 3 (some sb.idx), next := s.next + 3,
+                   subs := replaceSub s.subs sb fun x => { x with pending := rest, out := x.out ++ [s.next + 2] } }
+        else
+          { s with heap := pushCells s.heap s.next [c, convEv d c],
+                   owner := setOwner s.owner s.next 2 (some sb.idx), next := s.next + 2,
+                   subs := replaceSub s.subs sb fun x => { x with pending := rest, out := x.out ++ [s.next + 1] } }
 
 /-- any interleaving of writers and pipeline steps is a list of steps -/
 def run (proj : Nat → Nat) (s : ES) : List Step → ES
@@ -221,102 +245,5 @@ def mergeInPlace (h : Nat → Ev) (kept incoming : Nat) : Nat → Ev :=
   match mergeChanges (h kept) (h incoming) with
   | some m => fun x => if x = kept then m else h x
   | none => h
-
-/-! ### driver: `ev …` ops (K1 tie of the sharing structure with the real Collection) -/
-
-open ScVerif.Line
-
-structure DrvEv where
-  s : ES := ES.init
-  /-- event references in the order a consumer first saw them: the canonical numbering of the answers -/
-  seen : List Nat := []
-  /-- indices of the subscribers opened with the driver's include filter ("the value's token is even") -/
-  incl : List Nat := []
-
-def parseKind? (s : String) : Option Kind :=
-  if s = "ADD" then some .add else if s = "UPDATE" then some .update
-  else if s = "REMOVE" then some .remove else if s = "REPLACE" then some .replace else none
-
-def showKind : Kind → String
-  | .add => "ADD" | .update => "UPDATE" | .remove => "REMOVE" | .replace => "REPLACE"
-
-def parseTok? (s : String) : Option (Option Nat) := if s = "-" then some none else s.toNat?.map some
-
-def showTok : Option Nat → String
-  | none => "-"
-  | some n => toString n
-
-def showEv (e : Ev) : String := s!"{showKind e.kind},{e.id},{showTok e.old},{showTok e.new}"
-
-/-- the driver's read-mask projection on message tokens (the harness maps a masked message to 1000 + token) -/
-def drvProj (t : Nat) : Nat := 1000 + t
-
-/-- the driver's include filter, as `CollectionChange.include` evaluates it on an event: `none` = pass it on as it is -/
-def drvDecision (e : Ev) : Option Decision :=
-  let inc : Option Nat → Bool := fun v => match v with | some t => t % 2 == 0 | none => false
-  if inc e.old = inc e.new then (if inc e.new then none else some .skip)
-  else if inc e.new then some .toAdd else some .toRemove
-
-/-- after a send: every backpressure subscriber forwards (through its include filter if it has one); a lossy Collection
-subscriber (stalled consumer) merges in; a lossy Value subscriber (stalled consumer) lets `DropExcess` drop the older
-pending pointer -/
-def settle (incl : List Nat) (s : ES) : ES :=
-  s.subs.foldl (fun acc sb => step drvProj acc
-    (if !sb.lossy then
-      (if incl.contains sb.idx then
-        match (acc.subs.find? (fun x => x.idx = sb.idx)).bind (fun x => x.inbox.head?) with
-        | some r => (match drvDecision (acc.heap r) with | some d => .forwardIncl sb.idx d | none => .forward sb.idx)
-        | none => .forward sb.idx
-      else .forward sb.idx)
-    else if sb.value then .dropIn sb.idx else .mergeIn sb.idx)) s
-
-def canon (seen : List Nat) (r : Nat) : List Nat × Nat :=
-  match seen.idxOf? r with
-  | some i => (seen, i)
-  | none => (seen ++ [r], seen.length)
-
-/-- what each backpressure subscriber's consumer received since `before` (the subscribers' `out` lengths before the send):
-`#canonical-ref:event` of the last one, `-` if nothing new -/
-def lastOuts (before : List Nat) (d : DrvEv) : DrvEv × List String :=
-  d.s.subs.foldl (fun (acc : DrvEv × List String) sb =>
-    if sb.lossy then acc else
-    if sb.out.length = before.getD sb.idx 0 then (acc.1, acc.2 ++ ["-"]) else
-    match sb.out.getLast? with
-    | none => (acc.1, acc.2 ++ ["-"])
-    | some r =>
-      let (seen', k) := canon acc.1.seen r
-      ({ acc.1 with seen := seen' }, acc.2 ++ [s!"#{k}:{showEv (acc.1.s.heap r)}"])) (d, [])
-
-def handleEv (d : DrvEv) (toks : List String) : DrvEv × String :=
-  match toks with
-  | ["reset"] => ({}, "ok")
-  | ["sub", l, m] =>
-    match parseBool? l, parseBool? m with
-    | some l, some m => ({ d with s := step drvProj d.s (.sub l m) }, "ok")
-    | _, _ => (d, "!bad-op")
-  | ["subi", m] =>
-    match parseBool? m with
-    | some m => ({ d with s := step drvProj d.s (.sub false m), incl := d.incl ++ [d.s.subs.length] }, "ok")
-    | none => (d, "!bad-op")
-  | ["vsub", l, m] =>
-    match parseBool? l, parseBool? m with
-    | some l, some m => ({ d with s := step drvProj d.s (.vsub l m) }, "ok")
-    | _, _ => (d, "!bad-op")
-  | ["vsend", n] =>
-    match n.toNat? with
-    | some n =>
-      let s1 := settle [] (step drvProj d.s (.vsend { kind := .update, id := 0, old := none, new := some n, lastSeed := false }))
-      let (d2, outs) := lastOuts (d.s.subs.map (·.out.length)) { d with s := s1 }
-      (d2, "|".intercalate ("ok" :: outs))
-    | none => (d, "!bad-op")
-  | ["send", k, id, o, n] =>
-    match parseKind? k, id.toNat?, parseTok? o, parseTok? n with
-    | some k, some id, some o, some n =>
-      let s1 := settle d.incl (step drvProj d.s (.send { kind := k, id := id, old := o, new := n, lastSeed := false }))
-      let (d2, outs) := lastOuts (d.s.subs.map (·.out.length)) { d with s := s1 }
-      (d2, "|".intercalate ("ok" :: outs))
-    | _, _, _, _ => (d, "!bad-op")
-  | ["audit"] => (d, "seen=" ++ ";".intercalate (d.seen.map fun r => showEv (d.s.heap r)))
-  | _ => (d, "!bad-op")
 
 end ScVerif.C07.Events
